@@ -133,7 +133,7 @@ pub fn run(ctx: &mut Ctx) {
     let max_len = ctx.tier.pick(7, 9);
     exhaustive(ctx, max_len, &mut |ctx, s| from_text(ctx, s));
     ctx.stratum("S-loose-spellings", false);
-    let n = ctx.tier.pick(20_000u64, 2_000_000u64);
+    let n = ctx.tier.n(20_000, 2_000_000);
     for i in 0..n {
         if ctx.take() {
             let mut r = Rng::for_case(ctx.seed, "C12-S", i);
@@ -157,7 +157,7 @@ pub fn run(ctx: &mut Ctx) {
         }
     }
     ctx.stratum("F-built-from-canonical-fields", false);
-    let n = ctx.tier.pick(50_000u64, 5_000_000u64);
+    let n = ctx.tier.n(50_000, 5_000_000);
     for i in 0..n {
         if ctx.take() {
             let mut r = Rng::for_case(ctx.seed, "C12-F", i);
